@@ -31,7 +31,7 @@ def run(ctx):
     from checks import C02 as c02mod
     c02mod.key_tie(ctx, findings, 1500, 1500, own_property=False)
     ctx.rules.append('h_args: command lines built from every entry of the real gcc/clang tables in every disposition (separated, concatenated, delimited, missing value), unknown flags, --, @file, '
-                     '-arch repeats, 0-2 inputs, shuffled; 1 in 20 with non-UTF-8 bytes (implementation-only monitor); h_l1: exhaustive decision alphabet; system: edit/flag/language/output/env/restart histories')
+                     '-arch repeats, 0-2 inputs, shuffled; 1 in 20 with non-UTF-8 bytes (part of the correspondence: the model carries to_string_lossy), one clang piece in ten is a -Xclang group (second pass of parse_arguments); h_l1: exhaustive decision alphabet; system: edit/flag/language/output/env/restart histories')
     if cargo_repo_bins(ctx, ('sccache', 'sccache-dist')):
         nh, nr = (2, 10) if ctx.quick() else (12, 30)
         if any('correspondence args' in b or 'correspondence key' in b or 'proof obligations' in b for b in ctx.broken): nh *= 6   # something no longer checks: search harder for a concrete failing request
@@ -43,7 +43,7 @@ def run(ctx):
                 sysmon.feed(ctx, res, findings, f'system {os.path.basename(cc)} preprocessor_cache_mode={dm}')
     ctx.assumptions += ['A1: the result of gcc/clang is a function of the hashed components (digest, driver mode, language, common+arch arguments, allow-listed env, extra files, preprocessed text) — tested by the system monitor, not proved',
                         'A2: no BLAKE3 collision among the keys of a history (explicit disjunct in never_replayed_for_different_request)', 'A3: storage returns what was stored or fails (C06, C08)']
-    ctx.notes.append('not modelled: the -Xclang second pass of parse_arguments, to_string_lossy of non-UTF-8 concatenated values (F-C01-b, implementation monitor only), edits during a request')
+    ctx.notes.append('not modelled: @file expansion (ExpandIncludeFile) beyond the refusal of @ values, edits during a request; the regen theorems cover command lines without -Xclang values (the second pass is modelled and tied, not yet under the partition theorems)')
 
 def replay(ctx, path):
     if not cargo_harness(ctx, ['h_args']): return 2
